@@ -11,6 +11,19 @@ Import ListNotations.
 Opaque no_args_tests short_types strip_excluded frm_field_headers.
 Opaque loose_exit_rows pairs_follow_cases has_group_case_by_name split_rows_carry_save_name group_split_without_cases_exports.
 
+(* the tree under check has the four export repairs (regenerated probes, translator/tables_c04.py).  Kept behind a definition:
+   as plain hypotheses `probe = true` they would let tactics that compute (a bare [discriminate]) close goals on a tree where the
+   probe is false, and the scripts would take another shape there. *)
+Definition repaired : Prop :=
+  loose_exit_rows = true /\ pairs_follow_cases = true /\ split_rows_carry_save_name = true /\ group_split_without_cases_exports = true.
+Lemma rep_loose : repaired -> loose_exit_rows = true. Proof. intros H. apply H. Qed.
+Lemma rep_cases : repaired -> pairs_follow_cases = true. Proof. intros H. apply H. Qed.
+Lemma rep_save : repaired -> split_rows_carry_save_name = true. Proof. intros H. apply H. Qed.
+Lemma rep_group : repaired -> group_split_without_cases_exports = true. Proof. intros H. apply H. Qed.
+Lemma rep_intro : loose_exit_rows = true -> pairs_follow_cases = true -> split_rows_carry_save_name = true -> group_split_without_cases_exports = true -> repaired.
+Proof. intros A B C D. exact (conj A (conj B (conj C D))). Qed.
+Global Opaque repaired.
+
 Section Local.
 Variable U : Type.
 Variable ueqb : U -> U -> bool.
